@@ -17,6 +17,9 @@ ORACLE_FIELDS = ["gdown4", "gup4", "gdet", "gammaup3", "gammadet", "st_Gamma_udd
                  "s_Gamma_udd3", "s_Riemann_uddd3", "s_Riemann_down3", "s_Ricci_down3", "s_RicciS", "Kdown3", "Ktrace", "Kup3", "Adown3",
                  "kappaT", "kappa_rho_n", "kappa_fluxup3_n", "Hamiltonian", "Momentumup3", "eweyl_n_down3", "bweyl_n_down3",
                  "dtKtrace", "dtphi_bssnok", "dtgammaup3", "dtgammadown3_bssnok", "dtAdown3_bssnok", "dts_Gamma_bssnok", "s_Gamma_bssnok",
+                 "covd_s", "covd_u", "covd_d", "covd_uu", "covd_dd", "covd_ud", "covd_du", "div_u", "div_d", "div_uu", "div_ud", "div_du",
+                 "div_dd", "curl_dd", "stcovd_u", "stcovd_d", "lie_s", "lie_u", "lie_d", "lie_uu", "lie_dd", "lie_ud", "lie_du", "lie_stu",
+                 "lie_std", "s_Gamma_udd3_bssnok", "s_Ricci_down3_bssnok",
                  "dalpha_over_alpha", "nup4", "theta", "minusA", "shear2", "covd_n", "zero9", "zero16", "zero", "zero3"]
 
 
@@ -39,6 +42,10 @@ def shape_of(field):
             "s_Ricci_down3": (3, 3), "Kdown3": (3, 3), "Kup3": (3, 3), "Adown3": (3, 3), "kappaT": (4, 4), "kappa_fluxup3_n": (3,),
             "Momentumup3": (3,), "eweyl_n_down3": (3, 3), "bweyl_n_down3": (3, 3), "dtgammaup3": (3, 3), "dtgammadown3_bssnok": (3, 3),
             "dtAdown3_bssnok": (3, 3), "dts_Gamma_bssnok": (3,), "s_Gamma_bssnok": (3,), "dalpha_over_alpha": (3,),
+            "covd_s": (3,), "covd_u": (3, 3), "covd_d": (3, 3), "covd_uu": (3, 3, 3), "covd_dd": (3, 3, 3), "covd_ud": (3, 3, 3),
+            "covd_du": (3, 3, 3), "div_uu": (3,), "div_ud": (3,), "div_du": (3,), "div_dd": (3,), "curl_dd": (3, 3), "stcovd_u": (4, 4),
+            "stcovd_d": (4, 4), "lie_u": (3,), "lie_d": (3,), "lie_uu": (3, 3), "lie_dd": (3, 3), "lie_ud": (3, 3), "lie_du": (3, 3),
+            "lie_stu": (4,), "lie_std": (4,), "s_Gamma_udd3_bssnok": (3, 3, 3), "s_Ricci_down3_bssnok": (3, 3),
             "nup4": (4,), "minusA": (3, 3), "covd_n": (4, 4), "zero9": (3, 3), "zero16": (4, 4), "zero3": (3,)}.get(field, ())
 
 
@@ -94,7 +101,10 @@ def compare_keys(job, refine=1):
         if np.abs(kin - kref).max() > 1e-10 * max(1.0, np.abs(kref).max()):
             return [{"key": "*", "error": "harness K field disagrees with the oracle K at the probe (machinery)"}]
     for p in (opts or {}).get("_pre", []):
-        rel[p]
+        try:
+            rel[p]
+        except Exception:
+            return []           # this pre-history is not computable on the probe grid (e.g. sphere extraction): variant skipped
     for kspec in keys:
         code_key, field, factor = kspec[:3]
         slicer = kspec[3] if len(kspec) > 3 else None
@@ -102,7 +112,7 @@ def compare_keys(job, refine=1):
         if ref is None:
             continue
         try:
-            v = rel[code_key]
+            v = CALLS[code_key](rel, F) if code_key in CALLS else rel[code_key]
             got = np.asarray(v)[(...,) + idx] * factor
             if slicer == "ss":
                 got = got[1:, 1:]
@@ -136,6 +146,49 @@ def compare_keys(job, refine=1):
                 kept.append(m)
             out = kept
     return out
+
+
+def _test_fields(F):
+    c = F.case
+    if not hasattr(F, "_tf"):
+        F._tf = {"phi": F.ev(c["phi"]), "vec": np.array([F.ev(v) for v in c["vec"]]),
+                 "ten": np.array([F.ev(v) for v in c["ten"]]).reshape((3, 3) + F.shape),
+                 "vec4": np.array([F.ev(v) for v in c["vec4"]]), "dtvec4": np.array([F.ev(v.d(0)) for v in c["vec4"]])}
+    return F._tf
+
+
+def _sum_ricci(rel, F):
+    return rel["s_Ricci_down3_bssnok"] + rel["s_Ricci_down3_phi"]
+
+
+CALLS = {
+    "call:s_covd:": lambda r, F: r.s_covd(_test_fields(F)["phi"], ""),
+    "call:s_covd:u": lambda r, F: r.s_covd(_test_fields(F)["vec"], "u"),
+    "call:s_covd:d": lambda r, F: r.s_covd(_test_fields(F)["vec"], "d"),
+    "call:s_covd:uu": lambda r, F: r.s_covd(_test_fields(F)["ten"], "uu"),
+    "call:s_covd:dd": lambda r, F: r.s_covd(_test_fields(F)["ten"], "dd"),
+    "call:s_covd:ud": lambda r, F: r.s_covd(_test_fields(F)["ten"], "ud"),
+    "call:s_covd:du": lambda r, F: r.s_covd(_test_fields(F)["ten"], "du"),
+    "call:s_div:u": lambda r, F: r.s_div(_test_fields(F)["vec"], "u"),
+    "call:s_div:d": lambda r, F: r.s_div(_test_fields(F)["vec"], "d"),
+    "call:s_div:uu": lambda r, F: r.s_div(_test_fields(F)["ten"], "uu"),
+    "call:s_div:ud": lambda r, F: r.s_div(_test_fields(F)["ten"], "ud"),
+    "call:s_div:du": lambda r, F: r.s_div(_test_fields(F)["ten"], "du"),
+    "call:s_div:dd": lambda r, F: r.s_div(_test_fields(F)["ten"], "dd"),
+    "call:s_curl:dd": lambda r, F: r.s_curl(_test_fields(F)["ten"], "dd"),
+    "call:st_covd:u": lambda r, F: r.st_covd(_test_fields(F)["vec4"], _test_fields(F)["dtvec4"], "u"),
+    "call:st_covd:d": lambda r, F: r.st_covd(_test_fields(F)["vec4"], _test_fields(F)["dtvec4"], "d"),
+    "call:Lie_beta:": lambda r, F: r.Lie_beta(_test_fields(F)["phi"], "", weight=1 / 6),
+    "call:Lie_beta:s_u": lambda r, F: r.Lie_beta(_test_fields(F)["vec"], "s_u", weight=2 / 3),
+    "call:Lie_beta:s_d": lambda r, F: r.Lie_beta(_test_fields(F)["vec"], "s_d"),
+    "call:Lie_beta:s_uu": lambda r, F: r.Lie_beta(_test_fields(F)["ten"], "s_uu", weight=1),
+    "call:Lie_beta:s_dd": lambda r, F: r.Lie_beta(_test_fields(F)["ten"], "s_dd", weight=-2 / 3),
+    "call:Lie_beta:s_ud": lambda r, F: r.Lie_beta(_test_fields(F)["ten"], "s_ud", weight=-2 / 3),
+    "call:Lie_beta:s_du": lambda r, F: r.Lie_beta(_test_fields(F)["ten"], "s_du"),
+    "call:Lie_beta:st_u": lambda r, F: r.Lie_beta(_test_fields(F)["vec4"], "st_u"),
+    "call:Lie_beta:st_d": lambda r, F: r.Lie_beta(_test_fields(F)["vec4"], "st_d", weight=1 / 6),
+    "sum:s_Ricci_down3_bssnok+phi": _sum_ricci,
+}
 
 
 def pmap(fn, jobs, procs=16):
